@@ -8,6 +8,7 @@ fn spec_next_version(cv: i32, resolving: bool, ov: i32) -> i32 {
     else if resolving { spec_sat_inc(if ov == IN_CONFLICT_RESOLUTION_KEY_VERSION { cv } else { ov }) }
     else if ov == IN_CONFLICT_RESOLUTION_KEY_VERSION { ov }
     else if cv == -1 { spec_sat_inc(ov) }
+    else if spec_sat_inc(cv) == -1 { 0 }   // never -1: that is what a removed key looks like on disk (C06)
     else { spec_sat_inc(cv) }
 }
 
